@@ -37,6 +37,13 @@ EXC = {
 }
 
 
+import operator as _operator
+
+# task callables that are C functions (name -> (callable, args, exception type they raise))
+BUILTINS = {'int': (int, ('abc',)), 'truediv': (_operator.truediv, (1, 0)), 'getitem': (_operator.getitem, ((), 3))}
+BUILTIN_RAISES = {'int': 'ValueError', 'truediv': 'ZeroDivisionError', 'getitem': 'IndexError'}
+
+
 def _recurse(n, exc, uid):
     if n <= 0:
         raise EXC[exc]('deep', uid)
@@ -69,6 +76,12 @@ def _run(k, uid, prog, proc):
             return ('v', uid, ins[1])
         elif op == 'raise':
             raise EXC[ins[1]]('boom', uid)
+        elif op == 'raise_exec':
+            # raised by a function that was built with exec() into a fresh dict (generated code: its globals
+            # have neither __file__ nor __name__)
+            ns = {}
+            exec('def generated_fn(exc, uid):\n    raise exc("boom", uid)\n', ns)
+            ns['generated_fn'](EXC[ins[1]], uid)
         elif op == 'recurse':
             return _recurse(ins[1], ins[2], uid)
         elif op == 'try':
